@@ -119,7 +119,7 @@ def cases(rng, tier, extended=False):
     q = tier == "quick"
     mul = 4 if extended else 1
     # --- orders at the boundary indices of the grid: corpus/C15/e128_grid.txt (written once by `constructed`); fresh ones here
-    yield from constructed(rng, ROWS[:2] if q else ROWS, (2 if q else 30) * mul, primes_only=True)
+    yield from constructed(rng, ROWS[:2] if q else ROWS, (2 if q else 8) * mul, primes_only=True)
     # --- stage-1 hits (one factor / both at once), random curves, degenerate generators
     for k in range((24 if q else 300) * mul):
         b1, b2 = rng.choice(ARMS)
